@@ -342,6 +342,9 @@ def main():
     # deprecated / dropped options keep their callbacks: the value is converted and validated before it is dropped
     D5 = Schema('K5', [Opt('int', 'd', 'D', 5, 'pv'), Opt('int', 'dx', 'DX', 5, 'pv'), Opt('int', 'dl', 'LDX', [b'1'], 'pv'), Opt('int', 'z', '', 3, 'v')])
     confs.append((D5, D5, [], 0))
+    # an integer parse callback may produce any long: what it produced is what is stored and what the validation sees
+    K9 = Schema('K9', [Opt('int', 'a', '', 5, 'pv'), Opt('int', 'l', 'L', [b'1'], 'pv'), Opt('sec', 's', 'M', sub=[Opt('int', 'x', '', 1, 'pv')])])
+    confs.append((K9, K9, [], 0, S.alphabet_for(K9) + ['BIG', 'I31', 'U32', 'NEG', 'HUGE']))
     # pointer values, scalar and list: the object a parse callback makes is stored, released when replaced, never half-stored
     K8 = Schema('K8', [Opt('ptr', 'q', '', None, 'pf'), Opt('ptr', 'ql', 'L', None, 'pf'), Opt('int', 'z', '', 3, 'v')])
     Nk = 4 if quick else 6
